@@ -21,12 +21,18 @@ checks = {
  "C20": ("model_checking", "Results only grow at the front, survive every later command incl. compact/prune of neighbours, are attached only to live tasks and only for acceptable paths (path classes ok/missing/dotdot/.ergo) - TLC action properties and verdicts on real executions.", "5 C20", "TLA+ model checking (TLC) + trace validation of real executions"),
 }
 
+PROC_NOTE = ("Assumes: scenario menus and process counts of spec/MC_Proc.tla (2-3 writers, 1 reader, at most one kill per run); one write(2) of a "
+             "short batch is atomic for concurrent readers and torn data arises only from process death (emulated by SIGKILL at the append hook plus a partial "
+             "write by the controller); the kernel releases flock on death. Ordering comes only from blocking sync-point hooks (build tag verif), never from "
+             "sleeps. Verdicts are ErgoConc clauses evaluated by TLC on the observed concurrent history. Trusted: TLC, Go stdlib, Linux flock/rename/O_APPEND.")
+proc_checks = {
+ "C01": ("model_checking", "ErgoProc (processes parked at the code's sync points, flock, file as lines + torn tail) is model-checked for serialisability of concurrent claims; every reachable model state x every enabled process step is then realised on real `ergo claim` processes through the blocking hooks (including select-before-lock and missing-lock-file races) and TLC judges the observed history: some serial order of the successful claims must explain every reply and the final state; no double hand-out; winner holds the task; busy = no effect; nobody waits.", "5 C01", "TLA+ model checking (TLC) + schedule replay on real processes + TLC-judged linearisation"),
+ "C02": ("model_checking", "Same engine over a menu of command pairs (new, new+claim, set, claim, claim <id>, sequence both ways, sequence rm, plan, prune, compact, failing commands, missing lock file): linearisation against the ideal sequential spec, whole-lines, never-waits.", "5 C02", "TLA+ model checking (TLC) + schedule replay on real processes + TLC-judged linearisation"),
+ "C03": ("fault_enumeration", "Every sync point of every mutating command kind as a kill point, with death between system calls, inside write(2) (partial line / whole line without newline, written by the controller) and inside the temp-file write; afterwards reads must succeed, only a prefix of the interrupted command's own events may be missing, and a continuation (new task, set, compact, list) must succeed, take effect and leave everything else untouched.", "5 C03", "TLA+ model checking (TLC) + crash-point enumeration on real processes"),
+ "C04": ("fault_enumeration", "Kill points between system calls for every multi-event command kind (claim, multi-field set, new task with state/claim, prune of several items, sequence, plan on empty and non-empty logs, compact): the observable state afterwards is exactly the state before or the state after (computed by the ideal spec), judged by TLC.", "5 C04", "TLA+ model checking (TLC) + crash-point enumeration on real processes"),
+ "C13": ("model_checking", "A lock-free `list --json --all` parked at each of its sync points (opened, probed) while each writer kind (append, prune, compact and plan rewrites) is advanced to each of its sync points or killed mid-line: the reader must exit 0 and its output must be the view of a whole-event prefix between the logs that were on disk during its window (TLC computes the allowed set from the recorded snapshots).", "5 C13", "TLA+ model checking (TLC) + schedule replay on real processes"),
+}
 not_applicable = {
- "C01": "process-layer engine (ErgoProc + controller) not built yet in this round; see DESIGN.md 12",
- "C02": "process-layer engine not built yet",
- "C03": "process-layer/crash engine not built yet",
- "C04": "process-layer/crash engine not built yet",
- "C13": "process-layer engine not built yet",
  "C17": "text engine (ErgoText) not built yet",
  "C18": "layout engine (ErgoFS) not built yet",
  "C19": "human list engine not built yet",
@@ -45,22 +51,24 @@ def main():
                "source_commits": hook_commits, "add_only": True},
      "engines": [
        {"name": "seq", "path": "harness/checks_seq.go", "serves_properties": sorted(checks), "kind_free_text": "TLC model checking of spec/ErgoSeq.tla (ideal), TLC-generated states x alphabet, crafted stores and simulated walks executed on the real binary, TLC trace judging with spec/ErgoTrace.tla"},
+       {"name": "proc", "path": "harness/checks_proc.go", "serves_properties": sorted(proc_checks) + ["C07", "C09", "C10", "C14", "C16"], "kind_free_text": "TLC model checking of spec/ErgoProc.tla, schedules/crash points realised on real processes via sync-point hooks (harness/ctl.go), TLC judging with spec/ErgoConc.tla"},
      ],
      "checks": [],
      "notes": "All verdicts are ErgoProps clauses evaluated by TLC on observed behaviour of the binary rebuilt from /repo; known findings in known_findings.json; see DESIGN.md.",
      "not_applicable": [{"property_id": k, "reason": v} for k, v in sorted(not_applicable.items())],
     }
-    for pid in sorted(checks):
-        cat, text, ref, tech = checks[pid]
+    allc = dict(checks); allc.update(proc_checks)
+    for pid in sorted(allc):
+        cat, text, ref, tech = allc[pid]
         m["checks"].append({
           "property_id": pid,
           "quick_cmd": f"./harness/check run {pid} --tier quick",
           "thorough_cmd": f"./harness/check run {pid} --tier thorough",
           "evidence_file": f"/verif/evidence/{pid}.json",
           "replay_cmd_template": "./harness/check replay {path}",
-          "engine": "seq",
+          "engine": "proc" if pid in proc_checks else "seq",
           "level_claimed": {"category": cat, "text": text, "design_ref": ref},
-          "level_note": SEQ_NOTE,
+          "level_note": PROC_NOTE if pid in proc_checks else SEQ_NOTE,
           "technique": tech,
         })
     json.dump(m, open(os.path.join(root, "MANIFEST.json"), "w"), indent=1)
